@@ -151,7 +151,8 @@ def props_check(prop):
     axioms = set()
     for line in out.splitlines():
         m = re.match(r"^([A-Za-z_][\w.']*)\s*(:.*)?$", line)
-        if m and m.group(1) not in ('Axioms', 'Closed') and not line.startswith('Closed under'):
+        if m and m.group(1) not in ('Axioms', 'Closed', 'Warning', 'File', 'Error') and not line.startswith('Closed under') \
+                and not line.startswith('New coercion'):
             axioms.add(m.group(1))
     axioms = sorted(axioms)
     return rc == 0, theorems, axioms, out
